@@ -82,7 +82,7 @@ func DrawFileSpec(t *tape.Tape, o FileOpts) FileSpec {
 		}
 	case 2:
 		// the default chunker under its three spellings: single chunk for our sizes
-		s.Chunker = []string{"size-262144", "", "default"}[csz%3]
+		s.Chunker = []string{"size-262144", "", "default", "rabin", "buzhash"}[csz%5]
 		csz = 262144
 	}
 	s.Width = []int{2, 3, 4, 5, 8, 174}[t.Pick(4, 4, 2, 2, 1, 1)]
@@ -355,5 +355,10 @@ func writeOdd(st *store.Store, content []byte, s FileSpec, noSizes bool) (cid.Ci
 		i += k
 	}
 	root := mkInterior(top)
+	// sometimes wrap the root in one or two single-link file nodes: legal, and
+	// never produced by the importers
+	for w := int(r.Next() % 4); w > 1; w-- {
+		root = mkInterior([]piece{root})
+	}
 	return root.c, nil
 }
